@@ -219,7 +219,7 @@ func (ex *Exec) callArgs(st *State, x *ast.CallExpr, ct *callTarget, k func(*Sta
 		}
 		for i := range vals {
 			if sig != nil && i < sig.Params().Len() {
-				vals[i].Go = convGo(vals[i].Go, sig.Params().At(i).Type())
+				vals[i] = ex.convTo(vals[i], sig.Params().At(i).Type())
 			}
 		}
 		k(st, vals)
@@ -322,7 +322,15 @@ func (ex *Exec) invoke1(st *State, ct *callTarget, k func(*State, []Val)) {
 		ex.builtin(st, ct.bname, ct.call, k)
 	case "static":
 		if ct.fi != nil {
-			if ct.fi.Spec != nil && !ct.fi.Spec.Inline && !(ct.fi == ex.top && false) {
+			forceInline := false
+			if ex.top != nil && ex.top.Spec != nil {
+				for _, n := range ex.top.Spec.InlineCalls {
+					if n == ct.fi.Decl.Name.Name || n == ct.fi.Key {
+						forceInline = true
+					}
+				}
+			}
+			if ct.fi.Spec != nil && !ct.fi.Spec.Inline && !forceInline {
 				ex.callContract(st, ct.fi.Spec, ct.fi, ct, k)
 				return
 			}
@@ -416,10 +424,8 @@ func (ex *Exec) bindParams(st *State, fr *Frame, recvList, params, results *ast.
 				obj := info.Defs[n]
 				if obj != nil && i < len(args) {
 					v := args[i]
-					v.Go = convGo(v.Go, substType(obj.Type(), fr.tsub))
-					if _, isIface := types.Unalias(substType(obj.Type(), fr.tsub)).Underlying().(*types.Interface); !isIface {
-						v.Go = substType(obj.Type(), fr.tsub)
-					}
+					v = ex.convTo(v, substType(obj.Type(), fr.tsub))
+					v.Go = substType(obj.Type(), fr.tsub)
 					ex.declare(st, obj, v)
 				}
 				i++
@@ -607,9 +613,16 @@ func (ex *Exec) pureClosureAxiom(st *State, c string, x *ast.FuncLit, ty types.T
 	// only expressions built from parameters, captured function values and pure calls
 	okExpr := true
 	ast.Inspect(ret.Results[0], func(n ast.Node) bool {
-		switch n.(type) {
+		switch c := n.(type) {
 		case *ast.FuncLit, *ast.IndexExpr, *ast.SliceExpr, *ast.StarExpr, *ast.TypeAssertExpr, *ast.CompositeLit:
 			okExpr = false
+		case *ast.CallExpr:
+			if id, ok := c.Fun.(*ast.Ident); ok {
+				switch id.Name {
+				case "append", "make", "copy", "new", "delete", "panic", "close":
+					okExpr = false
+				}
+			}
 		}
 		return okExpr
 	})
@@ -643,6 +656,7 @@ func (ex *Exec) pureClosureAxiom(st *State, c string, x *ast.FuncLit, ty types.T
 	scratch.frame = nf
 	nObl := len(ex.obls)
 	nAss := len(scratch.assumes)
+	nDecl := len(ex.w.decls)
 	var body *Val
 	var guards []string
 	count := 0
@@ -665,7 +679,19 @@ func (ex *Exec) pureClosureAxiom(st *State, c string, x *ast.FuncLit, ty types.T
 	}()
 	// obligations produced while evaluating under quantified variables are not meaningful
 	ex.obls = ex.obls[:nObl]
+	if count == 1 && body != nil {
+		// definitions introduced while evaluating under bound variables must not escape
+		for _, d := range ex.w.decls[nDecl:] {
+			for _, dv := range decl {
+				bv := strings.Fields(strings.Trim(dv, "()"))[0]
+				if strings.Contains(d, bv) {
+					body = nil
+				}
+			}
+		}
+	}
 	if count != 1 || body == nil || len(decl) == 0 {
+		ex.w.undeclareFrom(nDecl)
 		return
 	}
 	app := ex.applyPure(Val{T: c, S: sRef, Go: ty}, sig, args)
@@ -696,10 +722,7 @@ func (ex *Exec) contractEnv(st *State, c *Contract, fi *FuncInfo, ct *callTarget
 				if i < len(ct.args) {
 					v := ct.args[i]
 					if o := fi.Pkg.P.TypesInfo.Defs[nm]; o != nil {
-						pt := substType(o.Type(), ct.tsub)
-						if _, isIface := types.Unalias(pt).Underlying().(*types.Interface); !isIface || v.Go == nil {
-							v.Go = pt
-						}
+						v.Go = substType(o.Type(), ct.tsub)
 					}
 					env.bind[nm.Name] = v
 				}
@@ -964,6 +987,9 @@ func (ex *Exec) staticCallee(info *types.Info, x *ast.CallExpr) *types.Func {
 	case *ast.SelectorExpr:
 		if sel := info.Selections[f]; sel != nil {
 			if sel.Kind() == types.MethodVal {
+				if _, isIface := types.Unalias(sel.Recv()).Underlying().(*types.Interface); isIface {
+					return nil // dynamic dispatch: handled through the protocol contract
+				}
 				return sel.Obj().(*types.Func)
 			}
 			return nil
@@ -1282,6 +1308,23 @@ func (ex *Exec) entryState(fi *FuncInfo, c *Contract) (*State, *SpecEnv) {
 		defer ex.specRecover("requires of " + fi.Key)
 		for _, r := range c.Requires {
 			st.assume(env.boolTerm(r.E))
+		}
+		for _, ps := range ex.prog.AllSpecs {
+			for _, ax := range ps.Axioms {
+				func() {
+					defer func() {
+						if r := recover(); r != nil {
+							if _, ok := r.(specFail); ok {
+								return // not expressible in this function's scope: skipped
+							}
+							panic(r)
+						}
+					}()
+					t := env.boolTerm(ax.E)
+					st.assume(t)
+					ex.w.assumed["axiom ("+shortPkgPath(ps.Path)+"): "+ax.Src] = true
+				}()
+			}
 		}
 		for _, u := range c.Uses {
 			lm := ex.prog.lemma(u)
